@@ -40,8 +40,16 @@ func (r *rep) Violation(group, class, detail string, transcript []string, cfg me
 	}
 	r.w.Violation(sigOf(class), fmt.Sprintf("%s: %s", class, detail), map[string]interface{}{"class": class, "detail": detail, "transcript": transcript, "cfg": cfg})
 }
-func (r *rep) Class(c string)              { r.w.Class(c) }
-func (r *rep) Metric(name string, n int64) { r.w.Metric(name, n) }
+func (r *rep) ConcViolation(group, class, detail string, extra map[string]interface{}) {
+	if group == memsim.GroupView {
+		r.w.Metric("concurrent_histories_cut_by_view_inconsistency", 1)
+		return // C08's subject
+	}
+	r.w.Violation(class, detail, extra)
+}
+func (r *rep) Notef(f string, a ...interface{}) { r.w.Notef(f, a...) }
+func (r *rep) Class(c string)                   { r.w.Class(c) }
+func (r *rep) Metric(name string, n int64)      { r.w.Metric(name, n) }
 
 func body(w *hx.W) {
 	rng := w.Rand("c09")
@@ -64,7 +72,28 @@ func body(w *hx.W) {
 		w.Case(uint64(seed))
 	}
 	_ = strings.ToUpper
-	concurrentPhase(w)
+	concurrentPhase(w, r)
+}
+
+func concurrentPhase(w *hx.W, r *rep) {
+	rng := w.Rand("c09-concurrent")
+	n := w.Pick(160, 4000)
+	for i := 0; i < n; i++ {
+		seed := rng.Int63()
+		sessions := 2 + rng.Intn(7)
+		ops := 25 + rng.Intn(30)
+		nb := 2 + rng.Intn(2)
+		procs := []int{1, 2, 4, 16}[rng.Intn(4)]
+		yield := []int{0, 50, 200, 500}[rng.Intn(4)]
+		if !w.Mine(i) {
+			continue
+		}
+		done := w.Begin("concurrent", fmt.Sprintf("concurrent history seed=%d sessions=%d ops=%d", seed, sessions, ops), 600*time.Second)
+		memsim.ConcurrentRun(r, seed, sessions, ops, nb, procs, yield)
+		done()
+		w.Case(uint64(seed))
+		w.Class(fmt.Sprintf("concurrent/sessions=%d/procs=%d/yield=%d", sessions, procs, yield))
+	}
 }
 
 func replay(w *hx.W, raw json.RawMessage) {
